@@ -18,6 +18,9 @@ def run(ctx):
             + [(0, None, None, 200)] * 2
     for i, (jit, thr, pw, rounds) in enumerate(plan):
         jobs.append((binary, hooks, seeds[i], jit if hooks else 0, thr, pw, rounds, ctx.quick))
+    # W10 needs some 12 MB per round: its own two jobs (debug build; with and without jitter)
+    jobs.append((binary, hooks, seeds[40], 0, None, None, 2 if ctx.quick else 12, ctx.quick, ["backlog"]))
+    jobs.append((binary, hooks, seeds[41], 2000 if hooks else 0, 2, None, 2 if ctx.quick else 12, ctx.quick, ["backlog"]))
     with multiprocessing.Pool(16) as pool:
         outs = pool.map(storm.worker, jobs)
     if not ctx.quick:
@@ -58,7 +61,10 @@ def run(ctx):
                 "pipelined floods to a prompt and to a late-draining reader; W8 a connection with a 4 KiB receive buffer pipelines "
                 "300-800 NAMES/LIST commands with ~230-name lists and reads nothing (the server's own counters show its handler "
                 "waiting for the socket): four rounds of JOIN / PRIVMSG / TOPIC / fresh registration by others must be answered "
-                "within 12 s each, then the slow one reads every reply, complete and in command order; "
+                "within 12 s each, then the slow one reads every reply, complete and in command order; W9 a pipelined flood to a "
+                "channel while members QUIT / close / PART: those who stay get every copy; W10 four senders pile up 12 MB for a "
+                "receiver that reads nothing, then it sends PING and reads: the PONG must come before 97 % of the backlog "
+                "(its own commands are served while messages wait), nothing lost, per sender in order; "
                 "distinct = workload classes; evidence lists distinct winners and reconstructed orders")
     res.floor("rounds", res.evaluations, 400 if ctx.quick else 2000)
     res.floor("distinct_orders_and_interleavings", orders, 4)
